@@ -92,8 +92,8 @@ def decode_call(p):
 
 def strategy():
     return st.fixed_dictionaries({
-        'nodes': st.lists(st.integers(0, 6 * 4 * 30 - 1).map(decode_node), min_size=1, max_size=25),
-        'rules': st.lists(st.integers(0, 640 * 4 - 1).map(decode_rule), min_size=1, max_size=4),
+        'nodes': st.lists(worldops.packed(6 * 4 * 30).map(decode_node), min_size=1, max_size=25),
+        'rules': st.lists(worldops.packed(640 * 4).map(decode_rule), min_size=1, max_size=4),
         'calls': st.lists(st.integers(0, 8).map(decode_call), min_size=1, max_size=3),
         'ctor': st.integers(0, 3).map(lambda p: {'nest': bool(p % 2), 'trim': bool(p // 2)}),
         'pre': st.booleans(), 'root_override': st.booleans(),
